@@ -34,7 +34,7 @@ from typing import Any
 # --------------------------------------------------------------------------------------------
 
 (K_OTHER, K_ASSIGN, K_ASSIGNLIT, K_ASSIGNMULTI, K_INC, K_DEC, K_LOADERR, K_UNBORROW, K_LOADADDR, K_KEEPALIVE,
- K_HEAPREF, K_ASSUME) = range(12)
+ K_HEAPREF, K_ASSUME, K_RAWREAD) = range(13)
 
 
 def parse_test_file(path: str) -> list[tuple[str, str, list[tuple[str, str]]]]:
@@ -94,7 +94,14 @@ class Dumper:
         self.nfuncs = 0
         self.n_steal = 0
         self.n_respill = 0
+        self.n_classes = 0
+        self.init_effect = None
+        self.n_class_claims = 0
+        self.class_text: list[str] = []
         self.n_ext_regs = 0
+        self.n_borrow_owner = 0
+        self.n_borrow_static = 0
+        self.n_borrow_unknown = 0
         self.n_assume = 0
         self.n_spill_reads = 0
         self.pending: list[Any] = []
@@ -123,6 +130,41 @@ class Dumper:
                     self.steal_before.setdefault(op, []).extend(pending)
                     pending = []
             assert not pending
+
+    def owner_of(self, op, LIT, ext):
+        """The value a borrowed refcounted result is borrowed from (None: static / unknown)."""
+        from mypyc.ir import ops as O
+        if isinstance(op, (O.LoadLiteral, O.LoadStatic, O.LoadGlobal, O.LoadAddress, O.Box, O.LoadErrorValue)):
+            self.n_borrow_static += 1
+            return None
+        if isinstance(op, O.GetAttr):
+            cand = [op.obj]
+        elif isinstance(op, (O.TupleGet, O.Cast)):
+            cand = [op.src]
+        elif isinstance(op, (O.LoadMem, O.GetElement)):
+            cand = list(op.sources())
+        else:
+            # borrowed result of a primitive / call: which operand (if any) keeps it alive is a property of
+            # the C function, not of the IR
+            self.n_borrow_unknown += 1
+            return None
+        # provenance: through non-refcounted intermediate ops (pointer arithmetic, struct fields) to the
+        # first refcounted value
+        seen = 0
+        while cand and seen < 40:
+            c = cand.pop(0)
+            seen += 1
+            if isinstance(c, LIT):
+                continue
+            if c in ext:
+                break
+            if c.type.is_refcounted:
+                self.n_borrow_owner += 1
+                return c
+            if isinstance(c, O.Op):
+                cand.extend(c.sources())
+        self.n_borrow_unknown += 1
+        return None
 
     def dump_func(self, tag: str, fn) -> None:
         from mypyc.ir import ops as O
@@ -171,13 +213,13 @@ class Dumper:
                     ks = [s for s in ka.sources() if not isinstance(s, LIT)]
                     kst = [s for s in ka.stolen() if not isinstance(s, LIT) and s.type.is_refcounted]
                     w(f"O {K_KEEPALIVE} 0 0 0 0 1 {len(ks)} " + "".join(f"{vid(s)} " for s in ks)
-                      + f"{len(kst)}" + "".join(f" {vid(s)}" for s in kst) + "\n")
+                      + f"{len(kst)}" + "".join(f" {vid(s)}" for s in kst) + " 0\n")
                     self.n_steal += 1
                 if unnamed_undef and not (isinstance(op, O.Branch) and op.op == O.Branch.IS_ERROR) \
                         and not (isinstance(op, O.DecRef) and op.is_xdec) and not isinstance(op, O.LoadAddress):
                     for sv in op.unique_sources():
                         if sv in unnamed_undef:
-                            w(f"O {K_ASSUME} 0 0 0 0 0 1 {vid(sv)} 0\n")
+                            w(f"O {K_ASSUME} 0 0 0 0 0 1 {vid(sv)} 0 0\n")
                             self.n_assume += 1
                 if isinstance(op, O.Goto):
                     w(f"G {labels[op.label]}\n")
@@ -230,6 +272,8 @@ class Dumper:
                             kind = K_LOADADDR
                         elif isinstance(op, O.KeepAlive):
                             kind, flag = K_KEEPALIVE, int(op.steal)
+                        elif isinstance(op, O.ComparisonOp):
+                            kind = K_RAWREAD       # operands are compared as machine words, never dereferenced
                         else:
                             kind = K_OTHER
                     d = vid(dest) if dest is not None else 0
@@ -243,9 +287,14 @@ class Dumper:
                         # read of a spill slot written by spill.py at the definition point: trusted non-null
                         maynull = 0
                         self.n_spill_reads += 1
+                    owner = 0
+                    if dest is not None and bor and rc and kind in (K_OTHER, K_RAWREAD):
+                        ow = self.owner_of(op, LIT, ext)
+                        if ow is not None:
+                            owner = vid(ow)
                     w(f"O {kind} {d} {rc} {bor} {maynull} {flag} {len(srcs)} "
                       + "".join(f"{vid(s)} " for s in srcs) + f"{len(stolen)}"
-                      + "".join(f" {vid(s)}" for s in stolen) + "\n")
+                      + "".join(f" {vid(s)}" for s in stolen) + f" {owner}\n")
         w("E\n")
         pretty = f"### {name}\n" + "\n".join(format_func(fn)) + "\n" if self.txt is not None else ""
         if self.pending and self.pending[-1][0] is fn:
@@ -254,7 +303,75 @@ class Dumper:
         else:
             self.pending.append((fn, "".join(buf), pretty))
 
+    def dump_class(self, tag: str, cl) -> None:
+        """Always-defined attributes: the claim of attrdefined.py and __init__ as it was analysed
+        (before the exception transform), abstracted to set / read / leak / base-__init__ call."""
+        from mypyc.ir import ops as O
+        # the claim BEFORE attrdefined.py intersects it with the subclasses' claims: this is the effect a direct
+        # call Base.__init__(self) is assumed to have; the final claim is a subset of it
+        first = self.init_effect or {}
+        claimed = set(first.get(cl, cl._always_initialized_attrs)) | set(cl._always_initialized_attrs)
+        self.n_classes += 1
+        if not claimed:
+            return
+        names = sorted({a for base in cl.mro for a in base.attributes} | claimed | set(cl.attrs_with_defaults))
+        aid = {n: i + 1 for i, n in enumerate(names)}
+        name = re.sub(r"\s+", "_", f"{tag}::class::{cl.module_name}.{cl.name}")
+        out = [f"I {name}\n",
+               f"Y {len(claimed)} " + " ".join(str(aid[a]) for a in sorted(claimed)) + "\n",
+               f"D {len(cl.attrs_with_defaults)} " + " ".join(str(aid[a]) for a in sorted(cl.attrs_with_defaults)) + "\n"]
+        m = cl.get_method("__init__")
+        if m is None:
+            out += ["b 1\n", "t\n"]
+        else:
+            self_reg = m.arg_regs[0]
+            labels = {b: i + 1 for i, b in enumerate(m.blocks)}
+            nxt = len(m.blocks) + 1
+            RAW = (O.ComparisonOp, O.GetElementPtr, O.LoadMem, O.IncRef, O.DecRef, O.KeepAlive, O.IntOp,
+                   O.Truncate, O.Extend, O.GetElement, O.LoadAddress)
+            for b in m.blocks:
+                out.append(f"b {labels[b]}\n")
+                if b.error_handler is not None:
+                    # an exception may leave the block at any point: the handler sees (at worst) the state at
+                    # the start of the block
+                    out.append(f"c {nxt} {labels[b.error_handler]}\n")
+                    out.append(f"b {nxt}\n")
+                    nxt += 1
+                for op in b.ops:
+                    uses_self = any(x is self_reg for x in op.sources())
+                    if isinstance(op, O.Goto):
+                        out.append(f"g {labels[op.label]}\n")
+                    elif isinstance(op, O.Branch):
+                        out.append(f"c {labels[op.true]} {labels[op.false]}\n")
+                    elif isinstance(op, O.Return):
+                        out.append("t\n")
+                    elif isinstance(op, O.Unreachable):
+                        out.append("u\n")
+                    elif isinstance(op, O.SetAttr) and op.obj is self_reg and op.src is not self_reg \
+                            and not op.class_type.class_ir.get_method(op.attr):
+                        out.append(f"s {aid[op.attr]}\n" if op.attr in aid else "")
+                    elif isinstance(op, O.GetAttr) and op.obj is self_reg \
+                            and not op.class_type.class_ir.get_method(op.attr):
+                        out.append(f"r {aid[op.attr]}\n" if op.attr in aid else "")
+                    elif isinstance(op, O.Call) and op.fn.class_name and op.fn.name == "__init__" and op.args \
+                            and op.args[0] is self_reg and not any(x is self_reg for x in op.args[1:]):
+                        bcl = op.fn.sig.args[0].type.class_ir
+                        attrs = sorted({a for base in bcl.mro for a in base.attributes
+                                        if a in first.get(base, base._always_initialized_attrs)})
+                        attrs = [aid[a] for a in attrs if a in aid]
+                        out.append(f"n {int(bool(bcl.init_self_leak))} {len(attrs)} " + " ".join(map(str, attrs)) + "\n")
+                    elif isinstance(op, (O.Assign, O.AssignMulti)) and (uses_self or op.dest is self_reg):
+                        out.append("l\n")
+                    elif uses_self and not isinstance(op, RAW):
+                        out.append("l\n")
+        out.append("e\n")
+        self.class_text.append("".join(out))
+        self.n_class_claims += len(claimed)
+
     def flush(self) -> None:
+        for t in self.class_text:
+            self.out.write(t)
+        self.class_text = []
         for _, text, pretty in self.pending:
             self.out.write(text)
             self.nfuncs += 1
@@ -341,6 +458,27 @@ def child_compile_case(d: Dumper, repo: str, tfile: str, case: str, main: str, f
         # the next pass; the refcount output is only path-correct together with it -> snapshot again.
         real_spill(fn, env)
         d.dump_func(tag, fn)
+    import mypyc.irbuild.main as ibmain
+    real_ada = ibmain.analyze_always_defined_attrs
+
+    import mypyc.analysis.attrdefined as adef
+    real_upd = adef.update_always_defined_attrs_using_subclasses
+    state: dict[str, Any] = {"irs": None}
+
+    def wrapped_upd(cl, seen) -> None:
+        if d.init_effect is None and state["irs"] is not None:
+            d.init_effect = {c: set(c._always_initialized_attrs) for c in state["irs"]}
+        real_upd(cl, seen)
+
+    def wrapped_ada(class_irs) -> None:
+        state["irs"] = list(class_irs)
+        d.init_effect = None
+        real_ada(class_irs)           # the real analysis, then its claims + the __init__ IR it looked at
+        for cl in class_irs:
+            d.dump_class(tag, cl)
+        d.init_effect = None
+    adef.update_always_defined_attrs_using_subclasses = wrapped_upd
+    ibmain.analyze_always_defined_attrs = wrapped_ada
     emitmodule.insert_ref_count_opcodes = wrapped
     emitmodule.insert_spills = wrapped_spill
     try:
@@ -361,6 +499,8 @@ def child_compile_case(d: Dumper, repo: str, tfile: str, case: str, main: str, f
     finally:
         emitmodule.insert_ref_count_opcodes = real
         emitmodule.insert_spills = real_spill
+        ibmain.analyze_always_defined_attrs = real_ada
+        adef.update_always_defined_attrs_using_subclasses = real_upd
         d.flush()
         if result is not None:
             result.manager.metastore.close()
@@ -398,7 +538,9 @@ def child_main(jobfile: str) -> None:
         txt.close()
     json.dump({"status": status, "n_steal": d.n_steal, "n_heapref": d.n_heapref, "n_unnamed_undef": d.n_unnamed_undef,
                "n_respill": d.n_respill, "n_ext_regs": d.n_ext_regs,
-               "n_assume": d.n_assume, "n_spill_reads": d.n_spill_reads},
+               "n_assume": d.n_assume, "n_spill_reads": d.n_spill_reads, "n_borrow_owner": d.n_borrow_owner,
+               "n_borrow_static": d.n_borrow_static, "n_borrow_unknown": d.n_borrow_unknown,
+               "n_classes": d.n_classes, "n_class_claims": d.n_class_claims},
               open(job["out"] + ".status", "w"))
 
 
@@ -418,7 +560,11 @@ def parse_dump(path: str):
     with open(path) as f:
         for ln in f:
             t = ln.split()
+            if not t:
+                continue
             c = t[0]
+            if c in ("I", "Y", "D", "b", "s", "r", "l", "n", "g", "c", "t", "u", "e"):
+                continue
             if c == "F":
                 name, args, blocks, cur, raw = t[1], [], {}, None, [ln]
                 continue
@@ -433,7 +579,8 @@ def parse_dump(path: str):
                 srcs = [int(x) for x in t[8:8 + n]]
                 m = int(t[8 + n])
                 stolen = [int(x) for x in t[9 + n:9 + n + m]]
-                blocks[cur][0].append((int(t[1]), int(t[2]), int(t[3]), int(t[4]), int(t[5]), int(t[6]), srcs, stolen))
+                owner = int(t[9 + n + m]) if len(t) > 9 + n + m else 0
+                blocks[cur][0].append((int(t[1]), int(t[2]), int(t[3]), int(t[4]), int(t[5]), int(t[6]), srcs, stolen, owner))
             elif c == "G":
                 blocks[cur][1] = ("G", int(t[1]))
             elif c == "C":
@@ -454,6 +601,14 @@ def owned(a) -> int:
     return a[1] if a[0] in ("O", "M") else 0
 
 
+def bor_leb(weak, strong) -> bool:
+    return weak == 0 or weak == strong or (strong == 1 and weak != 0)
+
+
+def bor_meet(b1, b2):
+    return b1 if bor_leb(b1, b2) else (b2 if bor_leb(b2, b1) else 0)
+
+
 def a_join(x, y):
     """Least upper bound, or None when the two states disagree about ownership."""
     if x == y:
@@ -463,7 +618,7 @@ def a_join(x, y):
     if x[0] == "N" and y[0] == "N":
         return ("N", x[1] | y[1])
     if x[0] == "O" and y[0] == "O":
-        return ("O", x[1], x[2] & y[2]) if x[1] == y[1] else None
+        return ("O", x[1], bor_meet(x[2], y[2])) if x[1] == y[1] else None
     if x[0] == "N":
         x, y = y, x
     if y[0] == "N":           # x is O or M
@@ -475,7 +630,7 @@ def a_join(x, y):
         return None
     ux = x[3] if x[0] == "M" else 0
     uy = y[3] if y[0] == "M" else 0
-    return ("M", x[1], x[2] & y[2], ux | uy)
+    return ("M", x[1], bor_meet(x[2], y[2]), ux | uy)
 
 
 class Reject(Exception):
@@ -501,18 +656,33 @@ def py_check(args, blocks) -> str:
             return (a[1] > 0 or bool(a[2])) and not a[3]
         return False
 
-    def release(s, v, where, x=False, strict=False):
+    def retarget(s, w, nb):
+        for x, a in list(s.items()):
+            if a[0] in ("O", "M") and a[2] == ("F", w):
+                s[x] = (a[0], a[1], nb) + a[3:]
+
+    def root(s, w):
+        a = get(s, w)
+        if a[0] == "O":
+            return ("F", w) if a[1] > 0 else a[2]
+        return 0
+
+    def release(s, v, where, x=False, strict=False, succ=0):
         a = get(s, v)
         if a[0] == "O":
             if a[1] == 0:
                 raise Reject(f"{where}: release of unowned v{v}")
             s[v] = ("O", a[1] - 1, a[2])
+            if a[1] == 1:
+                retarget(s, v, succ if succ != 0 else a[2])
         elif a[0] == "N" and not strict:
             pass
         elif a[0] == "M" and not strict:
             if a[1] == 0:
                 raise Reject(f"{where}: release of unowned v{v}")
             s[v] = ("M", a[1] - 1, a[2], a[3])
+            if a[1] == 1:
+                retarget(s, v, 0)
         else:
             raise Reject(f"{where}: release of {a} v{v}")
 
@@ -521,23 +691,27 @@ def py_check(args, blocks) -> str:
             raise Reject(f"{where}: v{d} overwritten while owning a reference (leak)")
         s[d] = a
 
-    def fresh(rc, bor, maynull):
-        o = ("O", 1, 0) if rc and not bor else ("O", 0, 1)
+    def fresh(s, rc, bor, maynull, owner=0):
+        o = ("O", 1, 0) if rc and not bor else ("O", 0, root(s, owner) if owner else 1)
         return ("M", o[1], o[2], 0) if maynull else o
 
     def transfer(lbl, s):
         s = dict(s)
         ops, term = blocks[lbl]
-        for i, (kind, d, rc, bor, maynull, flag, srcs, stolen) in enumerate(ops):
+        for i, (kind, d, rc, bor, maynull, flag, srcs, stolen, owner) in enumerate(ops):
             where = f"L{lbl - 1}.{i}"
-            if kind in (K_OTHER, K_ASSIGNMULTI, K_UNBORROW, K_KEEPALIVE, K_HEAPREF):
+            if kind in (K_OTHER, K_ASSIGNMULTI, K_UNBORROW, K_KEEPALIVE, K_HEAPREF, K_RAWREAD):
                 for v in srcs:
-                    if not readable(get(s, v)):
-                        raise Reject(f"{where}: read of {get(s, v)} v{v}")
+                    a = get(s, v)
+                    if kind == K_RAWREAD:
+                        if not (a[0] == "O" or (a[0] == "N" and not a[1]) or (a[0] == "M" and not a[3])):
+                            raise Reject(f"{where}: raw read of {a} v{v}")
+                    elif not readable(a):
+                        raise Reject(f"{where}: read of {a} v{v}")
                 for v in stolen:
-                    release(s, v, where)
+                    release(s, v, where, succ=1 if kind == K_KEEPALIVE else 0)
                 if d:
-                    define(s, d, fresh(rc, bor and kind != K_UNBORROW, maynull), where)
+                    define(s, d, fresh(s, rc, bor and kind != K_UNBORROW, maynull, owner), where)
             elif kind == K_LOADADDR:
                 define(s, d, ("O", 0, 1), where)
             elif kind == K_ASSUME:
@@ -557,7 +731,7 @@ def py_check(args, blocks) -> str:
                     raise Reject(f"{where}: read of {a} v{v}")
                 mv = bool(stolen)          # refcounted dest and refcounted source: the reference moves
                 if mv:
-                    release(s, v, where)
+                    release(s, v, where, succ=("F", d))
                 own = ("O", 1, 0) if rc else ("O", 0, 1)   # rc dest from a non-rc source: virtual reference
                 if a[0] == "N":
                     na = ("N", a[1] | flag)
@@ -657,7 +831,7 @@ def list_cases(repo: str) -> list[dict]:
     td = os.path.join(repo, "mypyc", "test-data")
     out = []
     names = sorted(os.listdir(td))
-    sel = [n for n in names if n in ("refcount.test", "exceptions.test")] + \
+    sel = [n for n in names if n in ("refcount.test", "exceptions.test", "alwaysdefined.test")] + \
           [n for n in names if n.startswith("irbuild-") and n.endswith(".test")] + \
           [n for n in names if n.startswith("run-") and n.endswith(".test")]
     for n in sel:
@@ -696,7 +870,8 @@ def run_dump(repo: str, items: list[dict], tmp: str, nproc: int, pretty: bool = 
     with ThreadPoolExecutor(max_workers=nproc) as ex:
         res = list(ex.map(one, range(len(chunks))))
     dumps, status, failures = [], [], []
-    counters = {"n_steal": 0, "n_heapref": 0, "n_unnamed_undef": 0, "n_respill": 0, "n_ext_regs": 0, "n_assume": 0, "n_spill_reads": 0}
+    counters = {"n_steal": 0, "n_heapref": 0, "n_unnamed_undef": 0, "n_respill": 0, "n_ext_regs": 0, "n_assume": 0, "n_spill_reads": 0,
+                "n_borrow_owner": 0, "n_borrow_static": 0, "n_borrow_unknown": 0, "n_classes": 0, "n_class_claims": 0}
     for out, st, err in res:
         if st is None:
             failures.append((out, err))
@@ -832,7 +1007,7 @@ def micro_to_op(raw: list[str], label: int, mi: int) -> str:
             kind = int(t[1])
             n = int(t[7])
             m = int(t[8 + n])
-            ln_ = (n + m + (1 if t[2] != "0" else 0)) if kind in (K_OTHER, K_ASSIGNMULTI, K_KEEPALIVE, K_HEAPREF, K_UNBORROW) else 1
+            ln_ = (n + m + (1 if t[2] != "0" else 0)) if kind in (K_OTHER, K_ASSIGNMULTI, K_KEEPALIVE, K_HEAPREF, K_UNBORROW, K_RAWREAD) else 1
             if acc + ln_ > mi:
                 return f"L{label - 1} op#{idx}"
             acc += ln_
@@ -903,6 +1078,54 @@ def gen(a: T, n: int) -> Iterator[T]:
         t = mk(i)
         yield t
         yield a
+class A:
+    def __init__(self, flag: bool) -> None:
+        if flag:
+            self.t = mk(1)
+        self.k = 1
+class B(A):
+    def __init__(self, flag: bool) -> None:
+        if flag:
+            super().__init__(True)
+        self.j = 2
+def f_attr_undef(flag: bool) -> T:
+    return A(flag).t
+def f_attr_undef_base(flag: bool) -> int:
+    return B(flag).k
+def g_undef(a: T, n: int) -> Iterator[T]:
+    if n > 100:
+        z = a
+    yield a
+    yield z
+def f_nested_undef(a: T, n: int) -> T:
+    if n > 100:
+        w = a
+    def inner() -> T:
+        return w
+    return inner()
+def f_tryfin_undef(a: T, n: int) -> T:
+    try:
+        if n > 100:
+            q = a
+        r = mk(n - 10)
+    finally:
+        n += 1
+    return q
+def f_tryfin_undef2(a: T, n: int) -> T:
+    try:
+        if n > 100:
+            q = a
+    finally:
+        n += 1
+    return q
+def f_del_undef(a: T, n: int) -> T:
+    v = mk(n)
+    del v
+    return v
+def f_loop_undef(a: T, n: int) -> T:
+    for i in range(n):
+        e = mk(i)
+    return e
 async def hb() -> bytes:
     await asyncio.sleep(0)
     return b"!"
@@ -914,7 +1137,25 @@ def probe() -> bytes:
 
 DYN_DRIVER = '''import asyncio, gc, sys, builtins, json
 import c06dyn as m
+import c06dyn_interp as mi
 res = {}
+UNDEF = ("NameError", "UnboundLocalError", "AttributeError")
+def same(name, fc, fi):
+    """compiled vs interpreted on an undefined read: both raise (same family), 1000x, no leak, no crash"""
+    try:
+        fi(); ei = None
+    except Exception as e:
+        ei = type(e).__name__
+    c0 = count()
+    for _ in range(1000):
+        try:
+            fc(); ec = None
+        except Exception as e:
+            ec = type(e).__name__
+        if not (ec == ei or (ec in UNDEF and ei in UNDEF)):
+            res[name] = f"compiled raised {ec}, interpreted {ei}"; return
+    c1 = count()
+    res[name] = "ok" if c0 == c1 else f"instances {c0}->{c1}"
 def count():
     gc.collect()
     return sum(1 for o in gc.get_objects() if type(o) is m.T)
@@ -946,6 +1187,17 @@ run("gen", lambda: list(m.gen(a, 3)))
 def closed():
     g = m.gen(a, 3); next(g); g.close()
 run("gen_close", closed)
+ai = mi.T(1)
+same("attr_undef", lambda: m.f_attr_undef(False), lambda: mi.f_attr_undef(False))
+same("attr_def", lambda: m.f_attr_undef(True).n, lambda: mi.f_attr_undef(True).n)
+same("attr_undef_base", lambda: m.f_attr_undef_base(False), lambda: mi.f_attr_undef_base(False))
+same("gen_undef", lambda: list(m.g_undef(a, 3)), lambda: list(mi.g_undef(ai, 3)))
+same("nested_undef", lambda: m.f_nested_undef(a, 3), lambda: mi.f_nested_undef(ai, 3))
+same("tryfin_undef", lambda: m.f_tryfin_undef(a, 3), lambda: mi.f_tryfin_undef(ai, 3))
+same("tryfin_undef2", lambda: m.f_tryfin_undef2(a, 3), lambda: mi.f_tryfin_undef2(ai, 3))
+same("tryfin_def", lambda: m.f_tryfin_undef2(a, 300).n, lambda: mi.f_tryfin_undef2(ai, 300).n)
+same("del_undef", lambda: m.f_del_undef(a, 3), lambda: mi.f_del_undef(ai, 3))
+same("loop_undef", lambda: m.f_loop_undef(a, 0), lambda: mi.f_loop_undef(ai, 0))
 print("PHASE1 " + json.dumps(res), flush=True)
 async def main():
     r0 = sys.getrefcount(m.probe())
@@ -978,6 +1230,7 @@ def dynamic_monitor(ctx, tmp: str) -> None:
     d = os.path.join(tmp, "dyn")
     os.makedirs(d)
     open(os.path.join(d, "c06dyn.py"), "w").write(DYN_MOD)
+    open(os.path.join(d, "c06dyn_interp.py"), "w").write(DYN_MOD)
     open(os.path.join(d, "drive.py"), "w").write(DYN_DRIVER)
     open(os.path.join(d, "drive_close.py"), "w").write(DYN_CLOSE_DRIVER)
     env = vlib.py_env()
@@ -989,7 +1242,7 @@ def dynamic_monitor(ctx, tmp: str) -> None:
     os.remove(os.path.join(d, "c06dyn.py"))
     env["PYTHONPATH"] = vlib.REPO + os.pathsep + d
     st, out = vlib.sh([vlib.PY, "drive.py"], cwd=d, env=env, timeout=300)
-    ctx.add("dynamic_runs", 9 * 1000)
+    ctx.add("dynamic_runs", 19 * 1000)
     m = re.search(r"PHASE1 (\{.*\})", out)
     if not m:
         ctx.violation("dyn-phase1-crash", f"compiled monitor functions crashed (status {st})", {"module": DYN_MOD, "driver": DYN_DRIVER, "output": out[-1500:]})
@@ -1063,15 +1316,15 @@ def run(ctx) -> None:
         rng = vlib.Rng(ctx.seed, "select")
         cases = list_cases(repo)
         if ctx.quick:
-            keep = [c for c in cases if os.path.basename(c["file"]) in ("refcount.test", "exceptions.test")]
+            keep = [c for c in cases if os.path.basename(c["file"]) in ("refcount.test", "exceptions.test", "alwaysdefined.test")]
             rest = [c for c in cases if c not in keep]
             rng.shuffle(rest)
-            cases = keep + rest[:110]
+            cases = keep + rest[:70]
         g = vlib.Rng(ctx.seed, "gen")
-        for i in range(ctx.n(6, 60)):
+        for i in range(ctx.n(4, 60)):
             cases.append({"kind": "gen", "name": f"generated{i}", "text": gen_program(g, ctx.n(8, 12))})
         t0 = time.time()
-        dumps, status, failures, counters = run_dump(repo, cases, tmp, vlib.NPROC, pretty=True,
+        dumps, status, failures, counters = run_dump(repo, cases, tmp, int(os.environ.get("VERIF_C06_PROCS", "8")), pretty=True,
                                                      timeout=200 if ctx.quick else 1500, chunk=6 if ctx.quick else 12)
         ctx.log(f"dumped {sum(s['funcs'] for s in status)} functions of {len(status)} programs in {time.time() - t0:.0f}s; idioms {counters}")
         for out, err in failures:
@@ -1088,6 +1341,25 @@ def run(ctx) -> None:
         ctx.log(f"validator: {len(verdicts)} verdicts in {time.time() - t0:.1f}s")
         n = nontriv = diffs = 0
         rejected: dict[str, list[Any]] = {}
+        ncls = 0
+        for cname, v in sorted(verdicts.items()):
+            if "::class::" not in cname:
+                continue
+            ncls += 1
+            if v[0] != "A":
+                text = ""
+                for d in dumps:
+                    t = open(d).read()
+                    i = t.find("I " + cname + "\n")
+                    if i >= 0:
+                        text = t[i:t.find("\ne\n", i) + 3]
+                        break
+                ctx.violation("attrdefined:" + cname.split("::", 1)[1],
+                              "attrdefined.py claims attributes always defined that __init__ does not assign on every path "
+                              "before self can be observed (read / leak / return): " + cname,
+                              {"class": cname, "abstract_init": text[:6000],
+                               "legend": "Y claimed, D defaults, b block, s set, r read, l leak, n base-init(leaks,attrs), g/c/t/u goto/branch/return/unreachable"})
+        ctx.cov["classes_with_claims_checked"] = ncls
         for d in dumps:
             for name, args, blocks, raw in parse_dump(d):
                 n += 1
